@@ -541,16 +541,19 @@ func (d Driver) Run(c *core.Ctx) error {
 	}
 	for _, prof := range profs {
 		d := mcDepth
-		if prof == "arcs" {
-			d = 3 // 555 000 states at depth 4, each with the judge as invariant
+		if prof == "arcs" || prof == "curves" {
+			d = 3 // 555 000 / 292 000 states at depth 4, each with the judge as invariant
 		}
-		res := c.TLC(tlc.Opts{Module: "Builder", Config: genCfg(d, 0, prof, true), Coverage: c.Thorough() && prof == "joins", Timeout: 40 * time.Minute}, true)
+		res := c.TLC(tlc.Opts{Module: "Builder", Config: genCfg(d, 0, prof, true), Timeout: 40 * time.Minute}, true)
 		for _, l := range res.Lines {
 			var h Line
 			if json.Unmarshal(l, &h) == nil && h.Hdr && len(h.NewPath) > 0 {
 				r.newPath = setOf(h.NewPath)
 			}
 		}
+	}
+	if c.Thorough() { // no action / branch of the model is vacuous
+		c.TLC(tlc.Opts{Module: "Builder", Config: genCfg(3, 0, "mix", true), Coverage: true, Timeout: 40 * time.Minute}, true)
 	}
 
 	// 2. spec -> code
